@@ -64,6 +64,9 @@ CLAIMS["C17"] = ("exhaustive differential enumeration operator x value x operand
 CLAIMS["C19"] = ("exhaustive program enumeration with a paired-program differential oracle, executed on the real code under the controlled scheduler",
     "All with_* chains (7 layer types) of total length <=2 (quick) / <=3 (thorough) split before/after bind()/flat_bind(), x six kinds of callable (function, keyword partial, positional partial, callable object, callable object exposing .func, future-returning) x argument lists: the bound form and the submit form are built and run side by side and must give equal outcomes and equal invocation logs; flat_bind must flatten. Names: every chain of 1-3 layers containing a thread-creating layer, with an explicit name at each position or none, bind() at each position, over sync and thread-pool bases: the names of the threads created must equal the inherited names.",
     "DESIGN.md section 6 C19")
+CLAIMS["C01"] = ("stateless model checking of the real code: exhaustive enumeration of layer stacks x outcome scripts, delay-bounded schedule enumeration on the shallow stacks, sequential reference evaluator",
+    "Every stack over the 7 layer types of depth 1 (d<=2), depth 2 (d<=1 with two submitter threads, d=0 otherwise) and depth 3 (d=0) - thorough adds depth 4, 5 and 6 (117 649 stacks) at d=0 - over the real SyncExecutor and the real thread pool, two submissions with tagged arguments and per-invocation outcome scripts (success, retryable failures, non-retryable failure, exhaustion), one faulty or one recovering user function per position; each run is compared with a recursive reference evaluator: value / the very exception object raised, invocation count, arguments, exactly one done notification.",
+    "DESIGN.md section 6 C01")
 NOT_YET = {}
 
 props = [json.loads(l) for l in open(os.path.join(HERE, "properties.jsonl"))]
